@@ -3,17 +3,38 @@
    with the set of sites the harness reported (through the oracle channel,
    where they are matched against the known findings) as not disciplined.
    The obligation: that set is exactly the verified checker's verdict; the same
-   for the write sites the check-then-act analysis (`stale_violations`) flags. *)
+   for the write sites the check-then-act analysis (`stale_violations`) flags.
+   CWalk: a walk over the real Store (Store.Range itself, or an exporter built
+   on it) parked after `park` visits while the Adds `ops` are attempted (they
+   complete at once, or wait for the walk - the harness goes on when the
+   goroutine doing them is finished or blocked in a mutex).  `init` are the Adds
+   that built the store (program, generation of its metric).  The obligation:
+   the visited sequence, the final length and every cell of the final backing
+   array (up to its capacity) are those of `range_locked` (Export/SliceAlias.v).
+   bygen = false: the observation shows programs only (an exporter's output). *)
 From Coq Require Import List NArith Bool.
 Import ListNotations.
 From V Require Import Base.Bytes.
-From V Require Export Export.LockIR.
+From V Require Export Export.LockIR Export.SliceAlias.
 Local Open Scope N_scope.
 
 Inductive c11case :=
-| CFunc (id : N) (fn : N) (b : list stmt) (reported : list N) (reported_stale : list N).
+| CFunc (id : N) (fn : N) (b : list stmt) (reported : list N) (reported_stale : list N)
+| CWalk (id : N) (bygen : bool) (init : list met) (park : N) (ops : list met)
+        (visited : list met) (final_len : N) (final_cells : list met).
 
-Definition c11case_id (c : c11case) : N := match c with CFunc i _ _ _ _ => i end.
+Definition c11case_id (c : c11case) : N :=
+  match c with CFunc i _ _ _ _ => i | CWalk i _ _ _ _ _ _ _ => i end.
+
+Definition met_eqb (a b : met) : bool := N.eqb (fst a) (fst b) && N.eqb (snd a) (snd b).
+Fixpoint mets_eqb (a b : list met) : bool :=
+  match a, b with
+  | [], [] => true
+  | x :: r, y :: t => met_eqb x y && mets_eqb r t
+  | _, _ => false
+  end.
+Definition proj (bygen : bool) (l : list met) : list met :=
+  if bygen then l else map (fun m => (fst m, 0)) l.
 
 Definition memN (x : N) (l : list N) : bool := existsb (N.eqb x) l.
 Definition same_set (a b : list N) : bool :=
@@ -24,6 +45,15 @@ Definition c11case_ok (c : c11case) : bool :=
   | CFunc _ _ b rep reps =>
       same_set (violations mtail_spec (lblock_of b)) rep &&
       same_set (stale_violations mtail_spec (lblock_of b)) reps
+  | CWalk _ bygen init _ ops visited flen fcells =>
+      let s0 := adds init sempty in
+      let r := range_locked s0 ops in
+      mets_eqb (proj bygen (fst r)) (proj bygen visited) &&
+      N.eqb (N.of_nat (h_len (cur (snd r)))) flen &&
+      mets_eqb (cells (snd r)) fcells
   end.
 
 Definition mismatches (l : list c11case) : list N := failing c11case_ok c11case_id l.
+
+(* compact constructor for the generated case files *)
+Definition mt (p g : N) : met := (p, g).
